@@ -35,6 +35,9 @@ VARIANTS = {
     'guard-dbg': ('stable', 'dev', 'std,rand,serde,guardalloc', '', None),
     # the library built WITHOUT its std feature under the guard allocator (configuration-conditional size estimates)
     'guard-nostd-rel': ('stable', 'release', 'rand,serde,guardalloc', '', None),
+    # source-coverage build of the library under the driver (tools/coverage.py): which functions / lines of /repo/src the
+    # quick workloads never execute
+    'cov': ('nightly', 'dev', ALLF, '-Cinstrument-coverage', 'x86_64-unknown-linux-gnu'),
     'asan': ('nightly', 'release', ALLF, '-Zsanitizer=address -Cforce-frame-pointers=yes', 'x86_64-unknown-linux-gnu'),
 }
 
